@@ -94,7 +94,7 @@ def call_loaded(func, args, env, sym, complex_names):
         elif a in complex_names:
             vals.append(complex(env[sym[a + '.re']] if a + '.re' in sym else 0.0, env[sym[a + '.im']] if a + '.im' in sym else 0.0))
         else:
-            vals.append(env[sym[a]] if a in sym else 0.0)
+            vals.append(np.float64(env[sym[a]] if a in sym else 0.0))   # NumPy semantics (x/0 = inf), as in the real calls
     with np.errstate(all='ignore'):
         return func(*vals)
 
@@ -126,7 +126,17 @@ def numeric_stream(ctx, nenv):
         for fn in g['functions']:
             func = loaded_function(m, fn['fn'])
             if func is None:
-                ctx.broken.append('loaded function %s.%s is missing although a pycode definition exists' % (name, fn['fn']))
+                if fn['fn'].endswith('_svc') and getattr(m.services.get(fn['fn'][:-4]), 'v_str', 1) is None:
+                    ctx.count('constant_zero_service_not_loaded')     # declared without v_str: value stays 0, by design
+                    continue
+                if fn['fn'].endswith(('_ii', '_ij')):
+                    ctx.oracle_fail('iterative-initialiser-generated-but-never-loaded:%s' % name,
+                                    '%s.%s: the declared iterative initialiser (v_iter of a single variable) is generated into pycode but '
+                                    'System._expand_pycode loads *_ii/*_ij only for variable GROUPS, so Model.init silently skips it'
+                                    % (name, fn['fn']), {'model': name, 'fn': fn['fn']})
+                    continue
+                ctx.oracle_fail('generated-function-not-loaded:%s.%s' % (name, fn['fn']),
+                                'loaded function %s.%s is missing although a pycode definition exists' % (name, fn['fn']), {'model': name, 'fn': fn['fn']})
                 continue
             try:
                 rets = [flatten(call_loaded(func, fn['args'], e, sym, cx)) for e in envs]
@@ -247,7 +257,7 @@ def delivery_stream(ctx):
                     var.e[:] = 0.0
                 upd()
                 for k, ((vn, var), out) in enumerate(zip(vlist.items(), fn[0]['outs'])):
-                    if out is None:
+                    if out is None or np.size(var.e) == 0:
                         continue
                     lines.append('ev %s | %s' % (out[0], ','.join(C.f2h(v) for v in env)))
                     meta.append((case, name, fname, vn, float(np.ravel(var.e)[0])))
